@@ -23,8 +23,12 @@ pub enum T1 {
     Le32,
     Be64,
     Zst,
+    /// zero-sized types whose references must still be aligned
+    Zst2,
+    Zst8,
+    Zst16,
 }
-const T1S: [T1; 10] = [T1::U8, T1::U16, T1::U32, T1::U64, T1::U128, T1::A3, T1::A16x2, T1::Le32, T1::Be64, T1::Zst];
+const T1S: [T1; 13] = [T1::U8, T1::U16, T1::U32, T1::U64, T1::U128, T1::A3, T1::A16x2, T1::Le32, T1::Be64, T1::Zst, T1::Zst2, T1::Zst8, T1::Zst16];
 
 impl T1 {
     fn size(self) -> usize {
@@ -35,16 +39,16 @@ impl T1 {
             T1::U64 | T1::Be64 => 8,
             T1::U128 => 16,
             T1::A3 => 3,
-            T1::Zst => 0,
+            T1::Zst | T1::Zst2 | T1::Zst8 | T1::Zst16 => 0,
         }
     }
     fn align(self) -> usize {
         match self {
             T1::U8 | T1::A3 | T1::Zst => 1,
-            T1::U16 | T1::A16x2 => 2,
+            T1::U16 | T1::A16x2 | T1::Zst2 => 2,
             T1::U32 | T1::Le32 => 4,
-            T1::U64 | T1::Be64 => 8,
-            T1::U128 => align_of::<u128>(),
+            T1::U64 | T1::Be64 | T1::Zst8 => 8,
+            T1::U128 | T1::Zst16 => align_of::<u128>(),
         }
     }
 }
@@ -62,6 +66,9 @@ macro_rules! with_t1 {
             T1::Le32 => $f::<Le32>($($args),*),
             T1::Be64 => $f::<Be64>($($args),*),
             T1::Zst => $f::<[u8; 0]>($($args),*),
+            T1::Zst2 => $f::<[u16; 0]>($($args),*),
+            T1::Zst8 => $f::<[u64; 0]>($($args),*),
+            T1::Zst16 => $f::<[u128; 0]>($($args),*),
         }
     };
 }
@@ -561,7 +568,7 @@ fn from_slice_checks(ctx: &Ctx) {
         }
     }
     for ty in T1S {
-        if ty == T1::Zst {
+        if ty.size() == 0 {
             // from_slice(&[]) for a zero-sized type answers None today; the property says nothing
             // about it (no accessor is produced), so it is not judged
             continue;
@@ -729,7 +736,7 @@ fn region_roots(ctx: &Ctx) {
 pub fn run(tier: Tier, replay: Option<String>) -> i32 {
     let ctx = crate::new_ctx("C01", tier, "model_checking", &replay);
     let thorough = tier.thorough();
-    ctx.set_rule("E1 to an empty frontier: state = (accessor kind, element type, start offset relative to the root, extent); from every reachable VolatileSlice: subslice/get_slice/compute_end_offset for every (offset, count) in (0..=L+1 + values around isize::MAX/usize::MAX + pointer-overflowing values)^2, offset/split_at for every such value, get_ref / aligned_as_ref / aligned_as_mut / get_array_ref (every count 0..=L/size+1 + overflowing counts) for 10 element types of 0..16 bytes, get_atomic_ref for all 10 AtomicInteger types; from references: to_slice; from arrays: to_slice and ref_at for every index incl. out of range. Every transition runs on the real API and is compared with an interval model (accepted iff offset+count does not overflow and fits the immediate parent; child exactly [parent+o, +c); typed/atomic references only at aligned addresses). Every new state is exercised: fill through the accessor, read back, only its own range may change inside a canary window placed before a PROT_NONE guard page. Roots: VolatileSlice of N bytes at every address mod 8 plus one ending at the guard page; MmapRegion (anonymous and file-backed) of 1, 5, 4096, 4097 bytes through the region, guest-region and guest-memory API; ByteValued::from_slice/from_mut_slice for all lengths 0..=17 x misalignments x types.");
+    ctx.set_rule("E1 to an empty frontier: state = (accessor kind, element type, start offset relative to the root, extent); from every reachable VolatileSlice: subslice/get_slice/compute_end_offset for every (offset, count) in (0..=L+1 + values around isize::MAX/usize::MAX + pointer-overflowing values)^2, offset/split_at for every such value, get_ref / aligned_as_ref / aligned_as_mut / get_array_ref (every count 0..=L/size+1 + overflowing counts) for 13 element types of 0..16 bytes (incl. zero-sized types of alignment 1, 2, 8 and 16, whose references must still be aligned), get_atomic_ref for all 10 AtomicInteger types; from references: to_slice; from arrays: to_slice and ref_at for every index incl. out of range. Every transition runs on the real API and is compared with an interval model (accepted iff offset+count does not overflow and fits the immediate parent; child exactly [parent+o, +c); typed/atomic references only at aligned addresses). Every new state is exercised: fill through the accessor, read back, only its own range may change inside a canary window placed before a PROT_NONE guard page. Roots: VolatileSlice of N bytes at every address mod 8 plus one ending at the guard page; MmapRegion (anonymous and file-backed) of 1, 5, 4096, 4097 bytes through the region, guest-region and guest-memory API; ByteValued::from_slice/from_mut_slice for all lengths 0..=17 x misalignments x types.");
     ctx.assume("accessor structs are Copy records of exactly (address, extent, bitmap, mmap handle): two chains reaching the same (kind, type, offset, extent) have the same futures, so merging them is sound");
     if ctx.replay_of.is_some() {
         println!("replay: the search is deterministic; re-running it and reporting whether the recorded key fails again");
